@@ -87,6 +87,7 @@ def _swarm_feat(cfg):
     f["multiline"] = cfg.random() < 0.3
     f["pathvars"] = cfg.random() < 0.3
     f["ret_kinds"] = ["tuple"] + (["str", "bytes"] if cfg.random() < 0.3 else [])
+    f["classes"] = cfg.random() < 0.35
     f["share"] = cfg.choice([0.0, 0.3, 0.6])
     return f
 
@@ -106,10 +107,13 @@ def gen_program(rng, feat):
         if i == 0:
             kind = "plain"
         else:
-            kinds = ["plain", "data", "data"] + (["target", "target"] if feat["targets"] else [])
+            kinds = ["plain", "data", "data"] + (["target", "target"] if feat["targets"] else []) + \
+                (["class"] if feat.get("classes") else [])
             kind = rng.choice(kinds)
         f = {"mod": mods[midx[i]], "kind": kind, "params": [], "ver": 1, "ret": rng.choice(feat["ret_kinds"]),
              "pad": 0, "body": [], "comment": 0, "end": bool(feat.get("end_markers"))}
+        if kind == "class":
+            f["ret"] = "tuple"
         if kind == "data":
             f["path"] = paths.pop()
             if feat["pathvars"] and rng.random() < 0.4:
@@ -140,11 +144,19 @@ def gen_program(rng, feat):
             "funcs": funcs, "order": list(names), "extra": {}, "ext": {"EXTV": 1, "ext_ver": 1}}
     rng.shuffle(prog["order"])
     # wiring
+    def caller_for(j):
+        # a class is always context-dependent in dds (its constructor arguments are never analysed): kept calls,
+        # data functions and loads inside methods would get one signature per call site; methods therefore only
+        # read variables and call plain helpers / other classes
+        kept = funcs[names[j]]["kind"] in ("target", "data")
+        cands = [i for i in range(0, j) if not (kept and funcs[names[i]]["kind"] == "class")]
+        return rng.choice(cands)
+
     for j in range(1, n):
-        i = rng.randrange(0, j)
+        i = caller_for(j)
         _add_ref(prog, names[i], names[j], rng, feat, paths)
         if funcs[names[j]]["kind"] != "target" and rng.random() < feat["share"]:
-            i2 = rng.randrange(0, j)
+            i2 = caller_for(j)
             if i2 != i:
                 _add_ref(prog, names[i2], names[j], rng, feat, paths)
     # variable reads, ext references
@@ -173,7 +185,7 @@ def _add_loads(prog, rng, feat):
     paths = all_paths(prog)
     nloads = rng.choice([1, 1, 2, 3])
     for _ in range(nloads):
-        fn = rng.choice(names)
+        fn = rng.choice([n for n in names if prog["funcs"][n]["kind"] != "class"])
         f = prog["funcs"][fn]
         own = {f.get("path")} | {it["path"] for it in f["body"] if it["t"] == "keep"}
         cand = [p for p in paths if p not in own]
@@ -216,6 +228,9 @@ def _add_ref(prog, caller, callee, rng, feat, paths):
             else:
                 it["args"].append({"k": "rt", "e": "?"} if rt else {"k": "lit", "v": _lit(rng, feat)})
         c["body"].append(it)
+    elif g["kind"] == "class":
+        c["body"].append({"t": "call", "f": callee, "form": form if form in ("direct", "from", "alias") else "from",
+                          "carg": _lit(rng, feat)})
     elif g["kind"] == "data":
         c["body"].append({"t": "call", "f": callee, "form": form})
     else:
